@@ -660,7 +660,7 @@ func contextFromHeaders(
 	ctx := metadata.NewIncomingContext(parent, md)
 
 	for _, hdr := range h.Headers {
-		if strings.ToLower(hdr.Key) == "grpc-timeout" {
+		if strings.ToLower(hdr.GetKey()) == "grpc-timeout" {
 			if timeout, ok := parseGrpcTimeout(hdr.Value); ok {
 				ctx, cancel := context.WithTimeout(ctx, timeout)
 				return ctx, cancel, nil
